@@ -105,6 +105,7 @@ type Frame struct {
 	resultTypes []types.Type
 	frameHook func(cur *Frame, lv *LV, addr ssa.Value, pos token.Pos)
 	frameMapHook func(cur *Frame, mv ssa.Value, m T, mt *types.Map, pos token.Pos)
+	frameAppendHook func(cur *Frame, arr string, s T, pos token.Pos)
 	frameCallHook func(cur *Frame, callee string, ms ModSet, calleeLocs []assignLoc, hasAssigns bool, tr *Translator, pos token.Pos)
 }
 
@@ -540,6 +541,30 @@ func (f *Frame) findLoops() {
 				break
 			}
 		}
+		// automatic (checked) invariant: an accumulator slice built only by append/make/nil is nil or freshly allocated
+		for _, in := range h.Instrs {
+			phi, ok := in.(*ssa.Phi)
+			if !ok {
+				break
+			}
+			if _, isSlice := phi.Type().Underlying().(*types.Slice); !isSlice || phi.Comment == "" {
+				continue
+			}
+			if !accumulatorPhi(phi, map[ssa.Value]bool{}) {
+				continue
+			}
+			src := fmt.Sprintf("%s == nil || fresh(%s)", phi.Comment, phi.Comment)
+			e, err := parseExpr(src)
+			if err != nil {
+				continue
+			}
+			spec := &LoopSpec{}
+			if li.spec != nil {
+				*spec = *li.spec
+			}
+			spec.Invs = append([]*Clause{{Label: "auto-fresh-" + phi.Comment, Src: src, Expr: e}}, spec.Invs...)
+			li.spec = spec
+		}
 		li.mods = ModSet{}
 		inScope := func(in ssa.Instruction) bool { return li.blocks[in.Block()] }
 		for b := range li.blocks {
@@ -703,7 +728,8 @@ func (f *Frame) enterBlock(b *ssa.BasicBlock) bool {
 				acc = Ite(f.edgePred[[2]int{p.Index, b.Index}], v, acc)
 			}
 		}
-		f.setVal(phi, acc)
+		sym := f.setVal(phi, acc)
+		f.loadFactsB(sym, phi.Type(), f.alloc())
 		f.mergeLV(phi, b, seen)
 	}
 	return true
@@ -1054,6 +1080,33 @@ func mentionsIdent(e Expr) bool {
 		return mentionsIdent(x.Body)
 	case *ESlice:
 		return mentionsIdent(x.X)
+	}
+	return false
+}
+
+// accumulatorPhi: every value flowing into the phi is nil, a make, an append result, or another such phi.
+func accumulatorPhi(v ssa.Value, seen map[ssa.Value]bool) bool {
+	if seen[v] {
+		return true
+	}
+	seen[v] = true
+	switch x := v.(type) {
+	case *ssa.Const:
+		return x.Value == nil
+	case *ssa.MakeSlice:
+		return true
+	case *ssa.Call:
+		if b, ok := x.Call.Value.(*ssa.Builtin); ok && b.Name() == "append" {
+			return true
+		}
+		return false
+	case *ssa.Phi:
+		for _, e := range x.Edges {
+			if !accumulatorPhi(e, seen) {
+				return false
+			}
+		}
+		return true
 	}
 	return false
 }
